@@ -7,6 +7,7 @@ from vlib.core import Src
 def build(u):
     m = Src.get("cln_plugin/mod.rs")
     o = Src.get("cln_plugin/options.rs")
+    u.refusing_unwrap = True     # E17
     u.raw("use vstd::prelude::*;\nverus! {\n")
     u.env("prelude.rs")
     u.env("std_extra.rs")
